@@ -554,7 +554,7 @@ func runC18(c *fw.Ctx) {
 		fmt.Fprintln(os.Stderr, "HARNESS-BUG C18 reference self-test failed:", msg)
 		os.Exit(2)
 	}
-	nValid := c.Pick(500, 80000)
+	nValid := c.Pick(500, 400000)
 	nMut := c.Pick(30, 300)
 	seed := c.Seed
 
@@ -586,7 +586,7 @@ func runC18(c *fw.Ctx) {
 	}
 
 	// (c) arbitrary strings, 100 per case
-	nArb := c.Pick(10000, 4000000) / 100
+	nArb := c.Pick(10000, 20000000) / 100
 	c.Cases(nArb, func(i int) string { return fmt.Sprintf("arbitrary|block=%d", i) }, func(i int, k *fw.K) {
 		s := &c18State{k: k, seenKeys: map[string]bool{}}
 		k.Nontrivial(fmt.Sprintf("arb|%d", i))
